@@ -107,7 +107,9 @@ def gen_files(ctx, n_files):
             continue
         b = w[1]
         big_ok = (not ctx.quick) and len(out) % 40 == 7 and len(b) <= 5000
-        if len(b) > cap and not big_ok:
+        # the directed sibling-slice files only need two short slices: keep them small (cut points cost n^2)
+        this_cap = 900 if (ctx.quick and "sibling" in kw) else cap
+        if len(b) > this_cap and not big_ok:
             continue
         if len(b) < 60:
             continue
@@ -209,6 +211,11 @@ def run(ctx):
                 if n_reuse_bad <= 2:
                     ctx.violation("impl-violation", bad[0], {"pair": [pa, pb], **bad[1]}, found_input=True)
     sc2.cleanup()
+
+    # ---- LARGE stream (family Q), Python-side oracles only
+    sc3 = B.Scratch(ctx.build)
+    B.run_large_stream(ctx, sc3, "c19", early=(files[0][0], files[0][1]) if files else None)
+    sc3.cleanup()
 
     # ---- F9 probe: with a key index of low byte 0x88 a torn (and the whole) file reads as different data
     f9_codes, f9_bad = f9_res
@@ -316,6 +323,12 @@ def run(ctx):
 
 
 def replay(ctx, data):
+    if "large_params" in data:
+        sc = B.Scratch(ctx.build)
+        try:
+            return B.replay_large(data, sc)
+        finally:
+            sc.cleanup()
     if "pair" in data:
         sc = B.Scratch(ctx.build)
         try:
